@@ -2134,9 +2134,15 @@ func (cs *consensus) processBlock(br fastsync.BlockResult) {
 	}
 	for i := 0; i < vl.Len(); i++ {
 		m := vl.Get(i)
-		index := cs.validators.IndexOf(m.address())
+		addr := m.address()
+		if addr == nil {
+			cs.log.Warnf("processBlock: invalid signature in commit vote list indexInVoteList=%d", i)
+			br.Reject()
+			return
+		}
+		index := cs.validators.IndexOf(addr)
 		if index < 0 {
-			cs.log.Warnf("processBlock: invalid signer in commit vote list signer=%x indexInVoteList=%d", m.address(), i)
+			cs.log.Warnf("processBlock: invalid signer in commit vote list signer=%x indexInVoteList=%d", addr, i)
 			br.Reject()
 			return
 		}
